@@ -5,7 +5,7 @@ from .fam_cluster import ClusterFam
 from .prop_C03 import REPLICA_TRUST
 
 PROP = Property(
-    "C06", ["HsVerif.Props.C06", "HsVerif.Props.C06Sys"], [ClientIOFam(), ReplicaFam("c06"), ClusterFam("c06")],
+    "C06", ["HsVerif.Props.C06", "HsVerif.Props.C06Sys", "HsVerif.Props.C06Queue"], [ClientIOFam(), ReplicaFam("c06"), ClusterFam("c06")],
     facts=[
         {"func": "server/clientio.go:ClientIO.Exec", "order": ["GetCommands", "ID", "Lock", "isDuplicate", "completeCommand", "Unlock", "Write", "completeCommand", "Unlock"]},
         {"func": "server/clientio.go:ClientIO.Abort", "order": ["GetCommands", "Lock", "completeCommand", "Unlock"], "absent": ["Write"]},
